@@ -79,6 +79,8 @@ package raft
 //@   inline
 
 //@ func openStorage
+// Log.Get(LastIndex) cannot fail when Count() > 0: its error branch is dead defensive code
+//@   dead opError#2 LastIndex#3
 //@   requires [C10.disk-contiguous] dlogPrev(pjoin(dir, "log")) == 0 || exists(i, fs[mfile(pjoin(dir, "snapshots"), i)] && dlogPrev(pjoin(dir, "log")) <= i)
 //@   modifies *
 //@   maypanic OpError
